@@ -7,7 +7,7 @@ property (or every claimed property with --all-props) with ONLSA_REPO pointing a
 """
 import json, os, subprocess, sys, glob
 
-WT = '/tmp/wt/seedtest'
+WT = os.environ.get('SEEDTEST_WT', '/tmp/wt/seedtest')
 args = sys.argv[1:]
 allp = '--all-props' in args
 args = [a for a in args if a != '--all-props']
